@@ -415,3 +415,134 @@ func c03DirectedStaleExpunge(r *ev.Run) {
 		w.violate("C03 directed stale-EXPUNGE-removes-refiled-message", fmt.Sprintf("A flagged UID 1 \\Deleted, B moved the message out of X and back (new UID, not \\Deleted); A's EXPUNGE, issued before A was told, removed the message: X now holds %v", v.Summary()), nil)
 	}
 }
+
+// c03DirectedCrossMailbox: one message lives in two mailboxes; a session that has one of them selected
+// marks it \Deleted there (or finds it so), another session changes its flags through the OTHER
+// mailbox, the first session learns of it in one of several ways and then expunges. The reference
+// model (shared flags, \Deleted per mailbox) decides what both mailboxes must hold afterwards.
+func c03DirectedCrossMailbox(r *ev.Run) {
+	type combo struct {
+		deletedBy string // who marks \Deleted in Y: "A-before" (before B selects), "B-after"
+		change    string // A's STORE in X
+		flush     string // how B learns: none (barrier only), NOOP, FETCH, IDLE
+		remove    string // EXPUNGE, UID EXPUNGE, CLOSE
+	}
+
+	var combos []combo
+
+	for _, d := range []string{"A-before", "B-after"} {
+		for _, ch := range []string{`+FLAGS (\Seen)`, `-FLAGS (\Flagged)`, `FLAGS (\Answered)`, `FLAGS ()`, `+FLAGS (\Deleted)`, `+FLAGS.SILENT (kwx)`} {
+			for _, fl := range []string{"none", "NOOP", "FETCH", "IDLE"} {
+				for _, rm := range []string{"EXPUNGE", "UID EXPUNGE", "CLOSE"} {
+					combos = append(combos, combo{d, ch, fl, rm})
+				}
+			}
+		}
+	}
+
+	ev.Parallel(len(combos), 10, func(i int) {
+		cb := combos[i]
+
+		label := fmt.Sprintf("cross-%d", i)
+		if r.OnlyCase != "" && r.OnlyCase != label {
+			return
+		}
+
+		w, err := newWorld(r, "C03", label, 2, []string{"INBOX", "X", "Y"}, nil)
+		if err != nil {
+			r.Inconclusive("%s: %v", label, err)
+			return
+		}
+
+		defer w.close()
+
+		a, b := w.sess[0], w.sess[1]
+		model := newMailModel("INBOX", "X", "Y")
+		mk, other := w.marker(), w.marker()
+
+		// two messages in X, both copied to Y
+		w.exec(a, `APPEND X (\Flagged) `, imapc.Lit(simpleMessage(mk, nil)))
+		model.appendMsg("X", mk, simpleMessage(mk, nil), []string{`\Flagged`})
+		w.exec(a, "APPEND X ", imapc.Lit(simpleMessage(other, nil)))
+		model.appendMsg("X", other, simpleMessage(other, nil), nil)
+		w.selectBox(a, "X", false)
+		w.exec(a, "COPY 1:2 Y")
+		model.copyTo("X", []int{0, 1}, "Y", false)
+
+		if cb.deletedBy == "A-before" {
+			w.selectBox(a, "Y", false)
+			w.exec(a, `STORE 1 +FLAGS (\Deleted)`)
+			model.store("Y", []int{0}, "+", []string{`\Deleted`})
+			w.selectBox(a, "X", false)
+		}
+
+		w.selectBox(b, "Y", false)
+
+		if cb.deletedBy == "B-after" {
+			w.exec(b, `STORE 1 +FLAGS (\Deleted)`)
+			model.store("Y", []int{0}, "+", []string{`\Deleted`})
+		}
+
+		if !mustQuiesce(r, w.s, 0, label) {
+			return
+		}
+
+		// A changes the message through X
+		w.exec(a, "STORE 1 "+cb.change)
+
+		f := strings.Fields(cb.change)
+		action := map[byte]string{'+': "+", '-': "-", 'F': "="}[f[0][0]]
+		flags := strings.Fields(strings.Trim(strings.Join(f[1:], " "), "()"))
+		model.store("X", []int{0}, action, flags)
+
+		if !mustQuiesce(r, w.s, 0, label) {
+			return
+		}
+
+		switch cb.flush {
+		case "NOOP":
+			w.exec(b, "NOOP")
+		case "FETCH":
+			w.exec(b, "FETCH 1:* (FLAGS)")
+		case "IDLE":
+			ir := b.c.IdleStart()
+			if ir.Err == nil && ir.Status == "" {
+				ir = b.c.IdleDone(ir)
+			}
+
+			w.absorb(b, "IDLE", ir)
+		}
+
+		switch cb.remove {
+		case "EXPUNGE":
+			w.exec(b, "EXPUNGE")
+		case "UID EXPUNGE":
+			w.exec(b, "UID EXPUNGE 1:*")
+		default:
+			w.exec(b, "CLOSE")
+			b.box = ""
+		}
+
+		model.expunge("Y", nil)
+
+		r.Eval(1)
+		r.Distinct(fmt.Sprintf("cross-mailbox %s | %s | %s | %s", cb.deletedBy, cb.change, cb.flush, cb.remove))
+
+		if w.isFailed() || !mustQuiesce(r, w.s, 0, label) {
+			return
+		}
+
+		for _, name := range []string{"X", "Y"} {
+			v, err := freshView(w.s, 0, name, false)
+			if err != nil {
+				r.Inconclusive("%s: %v", label, err)
+				return
+			}
+
+			if kind, diff := compareBox(model.box(name), v, nil, false, nil); diff != "" {
+				w.violate("C03 cross-mailbox "+kind+" "+cb.flush+" "+cb.remove, fmt.Sprintf("a message in X and Y, \\Deleted in Y (%s); STORE 1 %s through X; the session on Y then %s / %s: mailbox %s differs from the reference model: %s", cb.deletedBy, cb.change, cb.flush, cb.remove, name, diff), nil)
+				return
+			}
+		}
+	})
+}
